@@ -509,18 +509,52 @@ func (s *storage) RemoveBlobs(ctx context.Context, blobs []blob.Ref) error {
 	for _, l := range todo {
 		batch.Delete(l.br.String())
 	}
-	if err := s.index.CommitBatch(batch); err != nil {
+	// destroy overwrites the pack entries. An entry that could not even be
+	// opened for that (and is therefore untouched) gets its index row
+	// back: a complete entry without a row would be brought back by a
+	// later Reindex, also after the blob has been received and removed
+	// again in the meantime.
+	destroy := func(todo []located) error {
+		var (
+			wg     syncutil.Group
+			mu     sync.Mutex
+			failed []located
+		)
+		for _, l := range todo {
+			removeGate.Start()
+			wg.Go(func() error {
+				defer removeGate.Done()
+				touched, err := s.delete(l.br, l.meta)
+				if err != nil && !touched {
+					mu.Lock()
+					failed = append(failed, l)
+					mu.Unlock()
+				}
+				return err
+			})
+		}
+		err := wg.Err()
+		for _, l := range failed {
+			if serr := s.index.Set(l.br.String(), l.meta.String()); serr != nil {
+				log.Printf("diskpacked: %v could not be removed from its pack (%v) and its index row could not be restored: %v", l.br, err, serr)
+			}
+		}
 		return err
 	}
-	var wg syncutil.Group
-	for _, l := range todo {
-		removeGate.Start()
-		wg.Go(func() error {
-			defer removeGate.Done()
-			return s.delete(l.br, l.meta)
-		})
+	if err := s.index.CommitBatch(batch); err != nil {
+		// An index that reports an error may have applied the batch
+		// nevertheless. Entries whose rows are verifiably gone are still
+		// destroyed.
+		var gone []located
+		for _, l := range todo {
+			if _, merr := s.meta(l.br); errors.Is(merr, os.ErrNotExist) {
+				gone = append(gone, l)
+			}
+		}
+		destroy(gone)
+		return err
 	}
-	return wg.Err()
+	return destroy(todo)
 }
 
 var statGate = syncutil.NewGate(20) // arbitrary
